@@ -25,6 +25,9 @@ class PrintUsingFormatter:
                 else:
                     i += n
                     self.fmt_parts.append(part)
+                    # the next character may start a field of its
+                    # own
+                    continue
 
             if i >= len(fmt):
                 break
